@@ -9,7 +9,7 @@ ID = 'C16'
 LEVEL = 'exploration'
 RULE = ('complete enumeration of state dimension {1,2,3} x snapshot count 1..6 (under-, exactly- and over-determined) x basis '
         'window (length 2-3 over six representatives) x add_one x data family (generic full rank with threshold 0 and 1e-10, '
-        'repeated snapshots with threshold 1e-10) for mandy_cm / mandy_fm; mandy_kb over product bases and output dimensions '
+        'repeated snapshots and integer-dtype data with threshold 1e-10) for mandy_cm / mandy_fm; mandy_kb over product bases and output dimensions '
         '1-3; ARR over product bases x EVERY admissible guess rank vector x repeats {1,2,3} with rcond 1e-14 and a monitor on '
         'every micro-step (least-squares residual non-increasing along the sweep). Oracle: numpy.linalg.pinv / lstsq of the '
         'dense transformed data matrix. Non-trivial: more than one snapshot.')
@@ -31,7 +31,7 @@ def cases(tier):
         for m in ((1, 2, 3, 4, 5, 6) if q else (1, 2, 3, 4, 5, 6, 8, 10)):
             for n in (2, 3):
                 for s in range(NREP):
-                    for fam, thr in (('gauss', 0), ('gauss', 1e-10), ('repeat', 1e-10)):
+                    for fam, thr in (('gauss', 0), ('gauss', 1e-10), ('repeat', 1e-10), ('intdtype', 1e-10)):
                         yield {'k': 'cm', 'd': d, 'm': m, 'w': [s, n], 'fam': fam, 'thr': thr}
                         for a1 in (True, False):
                             yield {'k': 'fm', 'd': d, 'm': m, 'w': [s, n], 'fam': fam, 'thr': thr, 'add_one': a1}
@@ -60,17 +60,38 @@ def _install():
         def w(i, micro_matrix, rhs, solution, rcond, direction):
             m = STATE['mon']
             if m is not None:
-                m.before(np.array(micro_matrix), np.array(rhs), i, direction)
+                m.before(np.array(micro_matrix), np.array(rhs), i, direction, solution)
             return orig(i, micro_matrix, rhs, solution, rcond, direction)
         return w
     mon.install(reg, '__arr_update_core', wrap)
 
 
-class ResMonitor:
-    def __init__(self, r, scale):
-        self.r = r; self.res = []; self.scale = scale; self.k = None
+def arr_micro_dense(solution, i, evals):
+    """dense micro matrix of ARR for core i: M[(a,k,b), j] = L_j[a] * psi_{i,k}(x_j) * R_j[b], from the current cores and
+    the basis evaluations evals[t] (n_t x m) of every mode"""
+    p = len(evals); m = evals[0].shape[1]
+    L = np.ones((1, m))
+    for t in range(i):
+        c = np.asarray(solution.cores[t])[:, :, 0, :]
+        L = np.einsum('aj,kj,akl->lj', L, evals[t], c)
+    Rm = np.ones((1, m))
+    for t in range(p - 1, i, -1):
+        c = np.asarray(solution.cores[t])[:, :, 0, :]
+        Rm = np.einsum('akl,kj,lj->aj', c, evals[t], Rm)
+    M = np.einsum('aj,kj,bj->akbj', L, evals[i], Rm)
+    return M.reshape(-1, m)
 
-    def before(self, M, rhs, i, direction):
+
+class ResMonitor:
+    def __init__(self, r, scale, evals=None):
+        self.r = r; self.res = []; self.scale = scale; self.k = None; self.evals = evals
+
+    def before(self, M, rhs, i, direction, solution=None):
+        if self.evals is not None and solution is not None:
+            try:
+                self.r.close('arr:micro-matrix', M, arr_micro_dense(solution, i, self.evals), 1e-9, '%s core %d' % (direction, i))
+            except Exception as e:
+                self.r.fail('arr:micro-matrix:oracle', repr(e))
         c, *_ = np.linalg.lstsq(M.T, rhs, rcond=1e-14)
         res = np.linalg.norm(M.T @ c - rhs)
         if self.res:
@@ -169,8 +190,16 @@ def run_case(case, seed):
         guess = tt_from(rand_cores(rng, n, [1] * p, case['rg']))
         sG = snap(guess)
         key = 'arr'
-        prev = None
-        for reps in (1, 2, 3):
+        datasets = [(x, y, P, (1, 2, 3))]
+        xB = gen_data(rng, d, m, 'gauss'); yB = rng.standard_normal((case['dout'], m))
+        PB = psi_oracle(xB, basis).reshape(-1, m)
+        svB = np.linalg.svd(PB, compute_uv=False)
+        if svB[-1] >= 1e-5 * svB[0]:
+            datasets.append((xB, yB, PB, (2,)))      # a second, different data set of the same sizes in the same process
+        for xd, yd, Pd, rep_list in datasets:
+          evals = [np.array([[float(f(xd[:, j])) for j in range(m)] for f in b]) for b in basis]
+          prev = None
+          for reps in rep_list:
             monitors = []
             STATE['mon'] = None
             with r.op(key + ':call'):
@@ -178,14 +207,14 @@ def run_case(case, seed):
                 class Multi:
                     def __init__(s_):
                         s_.cur = None; s_.count = 0; s_.per = reps * (2 * p - 1)
-                    def before(s_, M, rhs, i, direction):
+                    def before(s_, M, rhs, i, direction, solution=None):
                         if s_.count % s_.per == 0:
-                            s_.cur = ResMonitor(r, 1.0 + np.linalg.norm(rhs)); monitors.append(s_.cur)
+                            s_.cur = ResMonitor(r, 1.0 + np.linalg.norm(rhs), evals); monitors.append(s_.cur)
                         s_.count += 1
-                        s_.cur.before(M, rhs, i, direction)
+                        s_.cur.before(M, rhs, i, direction, solution)
                 STATE['mon'] = Multi()
                 with quiet():
-                    sol = reg.arr(x, y, basis, guess, repeats=reps, rcond=1e-14, progress=False)
+                    sol = reg.arr(xd, yd, basis, guess, repeats=reps, rcond=1e-14, progress=False)
                 STATE['mon'] = None
                 if not r.true(key + ':result-list', isinstance(sol, list) and len(sol) == case['dout']):
                     continue
@@ -196,11 +225,11 @@ def run_case(case, seed):
                         break
                     r.true(key + ':dims', list(s_.row_dims) == n)
                     r.true(key + ':ranks-kept', list(s_.ranks) == list(case['rg']), 'ranks %s guess %s' % (s_.ranks, case['rg']))
-                    res.append(np.linalg.norm(dn(s_).reshape(-1) @ P - y[q_]))
+                    res.append(np.linalg.norm(dn(s_).reshape(-1) @ Pd - yd[q_]))
                 if len(res) == case['dout']:
                     if prev is not None:
                         for q_ in range(case['dout']):
-                            r.le(key + ':residual-vs-repeats', res[q_], prev[q_], 1e-6 * (1 + np.linalg.norm(y[q_])), 'repeats %d row %d' % (reps, q_))
+                            r.le(key + ':residual-vs-repeats', res[q_], prev[q_], 1e-6 * (1 + np.linalg.norm(yd[q_])), 'repeats %d row %d' % (reps, q_))
                     prev = res
             STATE['mon'] = None
         r.true(key + ':guess-unchanged', unchanged(guess, sG), 'initial guess modified')
